@@ -115,6 +115,28 @@ def run_history(job):
         common.drop_case_dir(d)
 
 
+def run_untimed(job):
+    """`history add TEXT` without a time stamp, one shell process per add: later processes must see the rows in
+    submission order (full listing, limited listing, ascending listing)"""
+    texts = job
+    d = common.fresh_case_dir()
+    try:
+        cwd = os.path.join(d, 'plain')
+        os.makedirs(cwd)
+        if not make_db(d, cwd):
+            return job, {'machinery': 'the shell did not create the history database'}
+        env = {'HISTORY_FILE': os.path.join(d, 'history.sqlite')}
+        for t in texts:
+            common.run_cicada(['-c', 'history add %s' % shell_word(t)], d, cwd=cwd, env=env, stdin=b'', timeout=20)
+        out = {}
+        for name, cmdline in (('list', 'history'), ('limit2', 'history -l 2'), ('asc', 'history -a')):
+            r = common.run_cicada(['-c', cmdline], d, cwd=cwd, env=env, stdin=b'', timeout=20)
+            out[name] = ([l.split(': ', 1)[1] if ': ' in l else l for l in r.out.decode('utf-8', 'replace').splitlines() if l.strip()], r.status)
+        return job, {'listed': out, 'rows': [x[1] for x in read_rows(d)]}
+    finally:
+        common.drop_case_dir(d)
+
+
 XDIRS = ['plain', 'a_b', 'axb', 'p%c', 'pzzc', "o'k", 'PLAIN']
 
 
@@ -272,8 +294,29 @@ def run(rep, tier):
             rep.outcome('ok:cross-dir')
             rep.traces_validated += 1
     rep.bounds.append({'layer': 'rows from several directories with names matching one another as LIKE patterns; history -p per directory', 'histories': len(xjobs), 'complete': True})
+    # `history add` without a time stamp
+    ujobs = [tuple(t) for n in (2, 3) for t in itertools.permutations(['one', 'two', 'three'], n)]
+    for texts, res in common.pmap(run_untimed, ujobs, chunk=2):
+        rep.evaluations += 1
+        rep.transitions += len(texts)
+        if 'machinery' in res:
+            rep.machinery.append(res['machinery'])
+            continue
+        want = {'list': list(texts), 'limit2': list(texts)[-2:], 'asc': list(texts)}
+        bad = [k for k in ('list', 'limit2', 'asc') if res['listed'][k][0] != want[k] or res['listed'][k][1] != 0]
+        if sorted(res['rows']) != sorted(texts):
+            rep.violation('untimed-add:rows-differ', {'adds_without_time_stamp': list(texts)}, sorted(texts), res['rows'])
+            rep.outcome('deviation:untimed-add')
+        elif bad:
+            rep.violation('untimed-add:submission-order:%s' % bad[0], {'adds_without_time_stamp': list(texts), 'then': {'list': 'history', 'limit2': 'history -l 2', 'asc': 'history -a'}[bad[0]]},
+                          want[bad[0]], res['listed'][bad[0]][0], repro='one cicada -c "history add TEXT" per text, then the listing command')
+            rep.outcome('deviation:untimed-add')
+        else:
+            rep.outcome('ok:untimed-add')
+            rep.traces_validated += 1
+    rep.bounds.append({'layer': '`history add` without a time stamp: every ordered selection of 2..3 of 3 texts, listings in later processes', 'histories': len(ujobs), 'complete': True})
     # interactive layer
-    typed = ['vh-mark a 0', ' vh-mark a 0', 'vh-mark b 0']
+    typed = ['vh-mark a 0', ' vh-mark a 0', 'vh-mark b 0', '!!']
     # texts that match one another as SQL LIKE patterns or differ only in case: they are different commands
     typed_like = ['vh-mark a_c 0', 'vh-mark abc 0', 'vh-mark ABC 0', 'vh-mark a%c 0',
                   # texts with quotes, a backslash, multi-byte characters, a list operator, a comment and an SQL comment marker
@@ -292,6 +335,8 @@ def run(rep, tier):
         model = []
         prev = None
         for l in seq:
+            if l == '!!' and prev is not None:
+                l = prev        # replaced by the previous recorded command: an immediate repeat
             if not l.startswith(' ') and l != prev:
                 model.append(l)
                 prev = l
